@@ -511,3 +511,131 @@ c16_run(const c16_scn *scn, c16_out *out) {
 	tp_res_cleanup();
 	g_close_unknown_passthrough = 0;
 }
+
+/* ============================ file variant (pread / pwrite) ============================ */
+#include <sys/mman.h>
+
+uint8_t c16f_file_pattern(uint64_t pos) { return ((uint8_t)(3 + ((pos * 11 + pos / 253) % 247))); }
+
+static const c16f_scn *gf_scn;
+static c16f_out *gf_out;
+static atomic_uint gf_ncb, gf_done;
+static io_buf_t gf_iob;
+static tp_task_p gf_task;
+
+static int
+file_cb(tp_task_p tptask, int error, io_buf_p buf, uint32_t eof, size_t transfered_size, void *udata) {
+	uint32_t n = atomic_fetch_add(&gf_ncb, 1);
+
+	(void)udata;
+	if (n < 4) {
+		c16_cb *r = &gf_out->cb[n];
+		memset(r, 0, sizeof(*r));
+		r->error = error;
+		r->eof = eof;
+		r->transfered = transfered_size;
+		r->used = (NULL != buf) ? buf->used : 0;
+		r->offset = gf_iob.offset;
+		r->tr_size = gf_iob.transfer_size;
+		r->on_owner = (tpt_get_current() == g_owner);
+		r->in_start = 1;
+	}
+	tp_task_stop(tptask);
+	return ((0 != error) ? TP_TASK_CB_ERROR : (0 != eof) ? TP_TASK_CB_EOF : TP_TASK_CB_NONE);
+}
+static void
+file_start_cb(tpt_p tpt, void *udata) {
+	const c16f_scn *s = gf_scn;
+	int fd = (int)(intptr_t)udata, rc;
+
+	rc = tp_task_create(tpt, (uintptr_t)fd, tp_task_rw_handler, 0, NULL, &gf_task);
+	if (0 == rc)
+		rc = tp_task_start_ex(0, gf_task, (0 == s->dir) ? TP_EV_READ : TP_EV_WRITE, 0, 0, (off_t)s->file_off, &gf_iob, file_cb);
+	gf_out->start_rc = rc;
+	if (NULL != gf_task) {
+		tp_task_destroy(gf_task);
+		gf_task = NULL;
+	}
+	atomic_store(&gf_done, 1);
+}
+
+void
+c16f_run(const c16f_scn *scn, c16f_out *out) {
+	tp_settings_t s;
+	uint8_t blk[4096];
+	uint32_t pos, k;
+	int fd;
+	size_t i;
+	ssize_t r;
+
+	memset(out, 0, sizeof(*out));
+	gf_scn = scn;
+	gf_out = out;
+	gf_task = NULL;
+	atomic_store(&gf_ncb, 0);
+	atomic_store(&gf_done, 0);
+	tp_harness_reset(NULL);
+	g_close_unknown_passthrough = 1;
+	fd = memfd_create("c16f", MFD_CLOEXEC | MFD_ALLOW_SEALING);
+	if (-1 == fd) {
+		out->setup_rc = errno;
+		return;
+	}
+	for (pos = 0; pos < scn->file_size; pos += k) {
+		k = MIN((uint32_t)sizeof(blk), scn->file_size - pos);
+		for (i = 0; i < k; i ++)
+			blk[i] = c16f_file_pattern((uint64_t)pos + i);
+		if ((ssize_t)k != pwrite(fd, blk, k, (off_t)pos)) {
+			out->setup_rc = -3;
+			close(fd);
+			return;
+		}
+	}
+	if (scn->sealed && 0 != fcntl(fd, F_ADD_SEALS, F_SEAL_GROW)) {
+		out->setup_rc = errno;
+		close(fd);
+		return;
+	}
+	tp_settings_def(&s);
+	s.flags = 0;
+	s.threads_max = 1;
+	out->setup_rc = tp_create(&s, &g_tp);
+	if (0 != out->setup_rc) {
+		close(fd);
+		return;
+	}
+	tp_threads_create(g_tp, 0);
+	g_owner = tp_thread_get(g_tp, 0);
+	memset(g_mem, GUARD_OUT, sizeof(g_mem));
+	memset(g_mem + 32, FILL_IN, scn->buf_size);
+	memset(&gf_iob, 0, sizeof(gf_iob));
+	gf_iob.data = g_mem + 32;
+	gf_iob.size = scn->buf_size;
+	gf_iob.used = scn->used0;
+	gf_iob.offset = scn->win_off;
+	gf_iob.transfer_size = scn->win_len;
+	if (1 == scn->dir) {
+		for (i = 0; i < scn->win_len; i ++)
+			gf_iob.data[scn->win_off + i] = c16_pattern(i);
+	}
+	if (0 == tpt_msg_send(g_owner, NULL, 0, file_start_cb, (void *)(intptr_t)fd))
+		(void)tp_wait_until(&gf_done, 1, CEIL_MS);
+	out->ncb = atomic_load(&gf_ncb);
+	memcpy(out->buf_image, g_mem, MIN(sizeof(out->buf_image), (size_t)scn->buf_size + 64));
+	out->final_used = gf_iob.used;
+	out->final_offset = gf_iob.offset;
+	out->final_tr = gf_iob.transfer_size;
+	{
+		off_t end = lseek(fd, 0, SEEK_END);
+		out->file_size_after = (end < 0) ? 0 : (uint32_t)end;
+		r = pread(fd, out->file_image, sizeof(out->file_image), 0);
+		(void)r;
+	}
+	tp_shutdown(g_tp);
+	tp_shutdown_wait(g_tp);
+	tp_destroy(g_tp);
+	close(fd);
+	tp_res_get(&out->res);
+	tp_res_cleanup();
+	g_close_unknown_passthrough = 0;
+}
